@@ -355,7 +355,8 @@ def stepC (st : CSt) (args : List String) : CSt × String :=
         | some gs => renderGroupStatus (if showAll == "1" then gs else Group.filterView gs)
       (st', s!"rc={c} rg={g} {out} ~path={repr p}" ++ (if viol then " ~specviol=D16" else ""))
     | _, _, _ => (st, "bad-op")
-  | ["cqdup", now, c, g, showAll] =>
+  | "cqdup" :: now :: c :: g :: showAll :: more =>
+    let showAll2 := more.head?.getD showAll
     -- two requests for one group at the same time: the second is answered like the first (from the evaluation the
     -- first one caused, or from one of its own on the same storage state)
     match parseInt? now, st.ccfg, st.store with
@@ -364,12 +365,15 @@ def stepC (st : CSt) (args : List String) : CSt × String :=
       let out := match result with
         | none => "gs=0 complete=3f800000 count=0 total=0 maxlag=- parts=-"
         | some gs => renderGroupStatus (if showAll == "1" then gs else Group.filterView gs)
-      (st', s!"rc={c} rg={g} {out} second={out.replace " " "~"} ~path={repr p}")
+      let out2 := match result with
+        | none => "gs=0 complete=3f800000 count=0 total=0 maxlag=- parts=-"
+        | some gs => renderGroupStatus (if showAll2 == "1" then gs else Group.filterView gs)
+      (st', s!"rc={c} rg={g} {out} second={out2.replace " " "~"} ~path={repr p}")
     | _, _, _ => (st, "bad-op")
   | ["cburst", n, _, _] =>
     -- n concurrent requests through the real coordinator: one reply each, rightly named (what they say is judged by cq)
     match parseNat? n with
-    | some n => (st, s!"burst={n}/{n} named=ok extra=0")
+    | some n => (st, s!"burst={n}/{n} named=ok extra=0 view=ok")
     | none => (st, "bad-op")
   | ["cbarrier"] => (st, "ok")
   | ["cstop"] => (st, "ok")
